@@ -129,8 +129,15 @@ func (t *c19Task) run(op c19Op, sh *c19Shared) (res string) {
 			return "parse-error"
 		}
 		t.pl = pl
-		b, _ := json.Marshal(pl)
-		return "parsed " + hashBytes(b)
+		// the warning text is part of the result: it must not depend on what other callers parsed before
+		wtxt := ""
+		if err != nil {
+			wtxt = err.Error()
+		}
+		return observe(pl, func() string {
+			b, _ := json.Marshal(pl)
+			return fmt.Sprintf("parsed %s warning=%s", hashBytes(b), hashBytes([]byte(wtxt)))
+		})
 	case "interpolate":
 		if t.pl == nil {
 			return "skip"
@@ -139,8 +146,10 @@ func (t *c19Task) run(op c19Op, sh *c19Shared) (res string) {
 		env.Set("FOO", "foo-value")
 		env.Set("BAR", "bar")
 		err := t.pl.Interpolate(env, op.arg == 1)
-		b, _ := json.Marshal(t.pl)
-		return fmt.Sprintf("interpolated err=%v %s", err != nil, hashBytes(b))
+		return observe(t.pl, func() string {
+			b, _ := json.Marshal(t.pl)
+			return fmt.Sprintf("interpolated err=%v %s", err != nil, hashBytes(b))
+		})
 	case "json":
 		if t.pl == nil {
 			return "skip"
@@ -441,7 +450,7 @@ func runC19(c *engine.Ctx) {
 		to := w.opts(3)
 		freshSources(to)
 		to.BigMaps = false
-		to.Unknown = false
+		to.Unknown = p.Draw(3, "t:unknown-steps") == 2
 		d := to.Pipeline()
 		t.doc, _ = gen.Render(p, d, true)
 		// a step with a matrix for the matrix op
